@@ -208,8 +208,8 @@ class OperatorNode(ASTNode):
         elif self.ttype == 'operator-infix':
             op = INFIX_OP_TO_FUNC[self.tvalue]
             return op(
-                self.left.eval(context),
-                self.right.eval(context),
+                self._operand(self.left.eval(context)),
+                self._operand(self.right.eval(context)),
             )
         elif self.ttype == 'operator-postfix':
             assert self.right is None, 'Right operand for postfix operator'
@@ -217,6 +217,15 @@ class OperatorNode(ASTNode):
             return op(self.left.eval(context))
         else:
             raise ValueError(f'Invalid operator type: {self.ttype}')
+
+    @staticmethod
+    def _operand(value):
+        # Some functions (COUNTA, ISNUMBER, ...) return plain Python values.
+        # Operators work on Excel values: 1 and TRUE are equal to Python but
+        # not to Excel.
+        if type(value) in func_xltypes.NATIVE_TO_XLTYPE:
+            return func_xltypes.ExcelType.cast_from_native(value)
+        return value
 
     def __str__(self):
         left = f'({self.left}) ' if self.left is not None else ''
